@@ -79,11 +79,15 @@ class Adapter(EnvAdapter):
             g = "rw" if gen == "random_walk" else "un"
             for (n, k) in ((3, 2), (4, 3), (6, 3), (5, 5), (8, 4)):
                 for t in (1, 2, 3, 7, 50):
-                    out.append(c(f"{g}{n}a{k}_t{t}", gen, n, k, t, 30 if t >= 7 else 12, min(t, 60) + 4,
-                                 probe_cap=125 if k == 3 else 48, probe_every=1 if n <= 4 else 2))
+                    episodes = {1: 10, 2: 10, 3: 10, 7: 18, 50: 12}[t]
+                    all_joint = k == 3 and n <= 4 and t <= 7          # 125 joint actions, enumerated
+                    out.append(c(f"{g}{n}a{k}_t{t}", gen, n, k, t, episodes, min(t, 52) + 4,
+                                 probe_cap=125 if all_joint else 48,
+                                 probe_every=4 if t == 50 else (1 if n <= 4 else 2)))
             out.append(c(f"{g}10a10_t50", gen, 10, 10, 50, 12, 56, probe_every=4, probe_cap=72))
             out.append(c(f"{g}10a10_t7", gen, 10, 10, 7, 8, 11, probe_cap=72))
-            out.append(c(f"{g}3a3_t7", gen, 3, 3, 7, 40, 11, probe_cap=125))
+            out.append(c(f"{g}3a3_t7", gen, 3, 3, 7, 40, 11, probe_cap=125, probe_every=2))
+            out.append(c(f"{g}3a3_t2_resets", gen, 3, 3, 2, 300, 1, probe_cap=6))
         out.append(c("default_rw10a10_t50", "default", 10, 10, 50, 12, 56, probe_every=4, probe_cap=72))
         return out
 
